@@ -381,7 +381,7 @@ Section Steps.
     keys_of cols cells = [].
   Proof.
     intros cells H. destruct (right_kind_cases cols) as [[_ Hu]|[_ Hu]].
-    - rewrite (keys_of_simple cols cells Hu). unfold new_keys in H. rewrite Hu in H. cbn in H.
+    - rewrite (keys_of_simple cols cells Hu). unfold new_keys, new_keys_iter in H. rewrite Hu in H. cbn in H.
       rewrite andb_true_r in H. now rewrite H.
     - rewrite (contains_keys_hashable cols cells Hu) in H. discriminate.
   Qed.
